@@ -182,14 +182,32 @@ theorem C06_issued_backs_nothing (n : Node) (h : Hash) (inv : Invoice) :
       n.restart.invoices h = none ∧ n.restart.payments h = none) := by
   constructor
   · unfold Node.issue
-    cases n.issued h with
-    | some old => exact ⟨rfl, rfl⟩
-    | none => simp only; split <;> exact ⟨rfl, rfl⟩
+    split
+    · exact ⟨rfl, rfl⟩
+    · cases n.issued h with
+      | some old => exact ⟨rfl, rfl⟩
+      | none => simp only; split <;> exact ⟨rfl, rfl⟩
   · intro h1 h2 h3
     refine ⟨h1, ?_⟩
     show restoreAll n.chans n.nch _ h = none
     apply restoreAll_none _ _ _ _ _ h3
     simp [h1, h2]
+
+/-- **The issued-invoice table limit** (`sign_bolt11_invoice`: `issued_invoices.len() >= policy.max_invoices()` answers
+    first, also for a repeat): with a full table nothing is issued and nothing changes (round 9; the escalated search met
+    it in the `m1` worlds). -/
+theorem C06_issued_table_full (n : Node) (h : Hash) (inv : Invoice)
+    (hf : (n.known.eraseDups.filter (fun x => (n.issued x).isSome)).length ≥ n.maxInv) :
+    n.issue h inv = (n, false) := by
+  simp [Node.issue, hf]
+
+/-- non-vacuity: limit 1, the second issued invoice is refused, so is a repeat of the first -/
+example :
+    let n0 := Node.init 2 pol0 ⟨0, .unlimited⟩ ⟨0, 0⟩ 1
+    let r := run n0 [.issue 1 ⟨2000000, 1600003721, [1, 2000000, 1600000061, 0]⟩]
+    (r.bind (fun n => n.step (.issue 2 ⟨2000000, 1600003782, [1, 2000000, 1600000122, 1]⟩))).map (·.2) = some false ∧
+    (r.bind (fun n => n.step (.issue 1 ⟨2000000, 1600003721, [1, 2000000, 1600000061, 0]⟩))).map (·.2) = some false := by
+  decide +kernel
 
 /-- **C06 (an approval recorded as zero).**  An amountless BOLT-11 invoice and a keysend of 0 msat are recorded
     with amount 0.  For such a hash `validate_payment_balance` accepts only what incoming value covers: the
